@@ -176,6 +176,7 @@ type evCtx struct {
 	kind    string
 	rs      *regState
 	removed *opRec
+	raced   *opRec // the operator whose finished step was checked concurrently in this event
 	judge   *judge
 	msgs    map[*regState][]inMsg
 }
@@ -938,6 +939,7 @@ func (w *world) heartbeat(ev *evCtx, rs *regState, race ...int) {
 	}
 	w.class("event:heartbeat")
 	if len(race) > 0 && race[0] > 0 && raceStep >= 0 {
+		ev.raced = raced
 		w.raceRound(ri, raced, raceStep, race[0])
 		return
 	}
@@ -1220,10 +1222,13 @@ func (w *world) collect(ev *evCtx) error {
 			return w.errf("command for region %d delivered to the stream of store %d, the leader is on store %d", v.ID, d.store, v.LeaderStore())
 		}
 		o := w.runningRec(rs)
+		if o == nil && ev.raced != nil && ev.raced.rs == rs {
+			// Dispatch reads the status and sends without the controller lock: a concurrent dispatch may
+			// have ended the operator in between (check-then-act inside pd; not part of the statement)
+			o = ev.raced
+			w.class("race:command-for-operator-ended-by-concurrent-dispatch")
+		}
 		if o == nil {
-			for _, q := range w.ops {
-				fmt.Println("DEBUG", q, q.running, m)
-			}
 			return w.errf("store %d received a command for region %d which has no running operator", d.store, v.ID)
 		}
 		n := o.nextSeen(v)
